@@ -1,7 +1,171 @@
-(** C06 -- JSON reader: alternative forms and rejections.  Property theorems only (placeholder). *)
-From TLV Require Import Json.JsonModel Json.JsonAltModel.
+(** C06 -- JSON reader accepts documented alternative forms and rejects invalid ones.  Property theorems only;
+    each is closed by [exact] of a lemma from Json/JsonAltProofs.v and followed by [Print Assumptions].
+    Model: [jsonr] of Json/JsonModel.v = the generated ReadJSONGeneral (JSONReadContext{}: legacy type names off) read
+    through WriteTL1; the helpers Json2ReadUnion / Json2ReadMaybe / Json2ReadString / Json2ReadInt32... are
+    [jr_union_parts] / [jr_maybe_parts] / [jr_string_t] / [jr_prim].
+
+    Full statement wanted: for every tree j' reachable from jsonw v by the documented rewrites (generator
+    [jsonw_alt] of Json/JsonAltModel.v, all combinations), jsonr j' = jsonr (jsonw v).  Proved here: each rewrite
+    as an equation of the reader at the node where it applies, for ARBITRARY surrounding input (not only for what
+    the writer emits), and the rejection rules.  NOT proved: the closure under composition through the struct reader
+    for two rules -- an empty-valued member written explicitly / omitted, and an explicit mask member with implied
+    bits dropped; the correspondence run exercises exactly these compositions (jsonw_alt) against the Go reader. *)
+From TLV Require Import Prim.PrimModel Tl1.Tl1Model Jprim.JprimModel
+  Json.JsonModel Json.JsonAltModel Json.JsonProofs Json.JsonRoundtrip Json.JsonAltProofs.
+From Coq Require Import Permutation.
 Open Scope N_scope.
 
-Theorem C06_placeholder : jprint (JObj []) = [123; 125].
-Proof. reflexivity. Qed.
-Print Assumptions C06_placeholder.
+(** ** alternative forms *)
+(** a number as a decimal string (Json2ReadUint32 / Int32 / Int64 / Float32 / Float64) *)
+Theorem C06_number_as_decimal_string : forall fparse p t, num_ok t = true ->
+  match p with PString | PBool _ _ | PNoTL1 => True
+  | _ => jr_prim fparse p (Some (JStr t)) = jr_prim fparse p (Some (JNum t)) end.
+Proof. exact alt_number_as_string. Qed.
+Print Assumptions C06_number_as_decimal_string.
+
+(** a string as {"base64": standard padded base64} -- for every byte string, valid UTF-8 or not *)
+Theorem C06_string_as_base64_object : forall s, bytes_ok s ->
+  jr_string_t (Some (JObj [(JStr s_base64, JStr (b64_enc s))])) = JOk s.
+Proof. exact alt_string_as_base64. Qed.
+Print Assumptions C06_string_as_base64_object.
+
+(** Maybe: {"value":x} = {"ok":true,"value":x} (either order);  {"ok":false} = {} = omitted *)
+Theorem C06_maybe_ok_optional : forall x,
+  jr_maybe_parts (Some (JObj [(JStr s_value, x)])) = jr_maybe_parts (Some (JObj [(JStr s_ok, JBool true); (JStr s_value, x)]))
+  /\ jr_maybe_parts (Some (JObj [(JStr s_value, x); (JStr s_ok, JBool true)])) = jr_maybe_parts (Some (JObj [(JStr s_ok, JBool true); (JStr s_value, x)])).
+Proof. exact alt_maybe_ok_optional. Qed.
+Print Assumptions C06_maybe_ok_optional.
+
+Theorem C06_maybe_empty_forms :
+  jr_maybe_parts (Some (JObj [(JStr s_ok, JBool false)])) = jr_maybe_parts (Some (JObj []))
+  /\ jr_maybe_parts None = jr_maybe_parts (Some (JObj [])).
+Proof. exact alt_maybe_empty. Qed.
+Print Assumptions C06_maybe_empty_forms.
+
+(** enum "T" = {"type":"T"};  union with a value-less variant {"type":"T"} = "T";  member order *)
+Theorem C06_union_type_string : forall nm,
+  jr_union_parts (Some (JStr nm)) = jr_union_parts (Some (JObj [(JStr s_type, JStr nm)])).
+Proof. exact alt_union_type_string. Qed.
+Print Assumptions C06_union_type_string.
+
+Theorem C06_union_member_order : forall nm x,
+  jr_union_parts (Some (JObj [(JStr s_value, x); (JStr s_type, JStr nm)]))
+  = jr_union_parts (Some (JObj [(JStr s_type, JStr nm); (JStr s_value, x)])).
+Proof. exact alt_union_member_order. Qed.
+Print Assumptions C06_union_member_order.
+
+(** members of a struct in any order: every permutation of ANY member list is read alike (accepted or not) *)
+Theorem C06_struct_member_order : forall fparse js f t ps tag fds tl2 fis ms ms',
+  nth_error js t = Some (TStruct tag fds, AStruct tl2 false fis) ->
+  Permutation ms ms' ->
+  jsonr fparse js (S f) t ps (Some (JObj ms')) = jsonr fparse js (S f) t ps (Some (JObj ms)).
+Proof. exact alt_member_order_struct. Qed.
+Print Assumptions C06_struct_member_order.
+
+(** the canonical spelling itself is read back as the value (C05): the reference point of all of the above *)
+Theorem C06_canonical_form_read_back : forall ffmt fparse js,
+  (forall is64 b, ffinite is64 b = true -> num_ok (ffmt is64 b) = true) ->
+  (forall is64 b, ffinite is64 b = true -> fparse is64 (ffmt is64 b) = Some b) ->
+  wf_jschema js = true ->
+  forall t ps v j fuel, (vdepth v < fuel)%nat ->
+    jsonw ffmt js t ps v = Some j -> jdiag js t ps false v = [] ->
+    jsonr fparse js fuel t ps (Some j) = JOk v.
+Proof. exact jsonw_jsonr. Qed.
+Print Assumptions C06_canonical_form_read_back.
+
+(** ** rejections *)
+Theorem C06_reject_unknown_key : forall fparse js f t ps tag fds tl2 fis ms,
+  nth_error js t = Some (TStruct tag fds, AStruct tl2 false fis) ->
+  keys_known (map jf_name fis) ms = false ->
+  jsonr fparse js (S f) t ps (Some (JObj ms)) = JReject.
+Proof. exact reject_unknown_key. Qed.
+Print Assumptions C06_reject_unknown_key.
+
+(** ([keys_known] is false as soon as one member's name is no field name) *)
+Theorem C06_unknown_key_characterised : forall names ms k x,
+  In (k, x) ms -> (forall nm, In nm names -> key_is nm k = false) -> keys_known names ms = false.
+Proof. exact keys_known_false. Qed.
+Print Assumptions C06_unknown_key_characterised.
+
+Theorem C06_reject_duplicate_key : forall fparse js f t ps tag fds tl2 fis ms,
+  nth_error js t = Some (TStruct tag fds, AStruct tl2 false fis) ->
+  keys_nodup ms = false ->
+  jsonr fparse js (S f) t ps (Some (JObj ms)) = JReject.
+Proof. exact reject_duplicate_key. Qed.
+Print Assumptions C06_reject_duplicate_key.
+
+Theorem C06_duplicate_key_characterised : forall k x y a b c,
+  keys_nodup (a ++ (JStr k, x) :: b ++ (JStr k, y) :: c) = false.
+Proof. exact keys_nodup_dup. Qed.
+Print Assumptions C06_duplicate_key_characterised.
+
+Theorem C06_reject_array_length : forall fparse js f t ps k ef a l,
+  nth_error js t = Some (TArray k ef, a) ->
+  match k with
+  | AVector => False
+  | ATupleDyn => lenN l <> nth 0 ps 0
+  | ATupleFixed c => lenN l <> c
+  end ->
+  jsonr fparse js (S f) t ps (Some (JArr l)) = JReject.
+Proof. exact reject_array_length. Qed.
+Print Assumptions C06_reject_array_length.
+
+Theorem C06_reject_omitted_tuple : forall fparse js f t ps k ef a,
+  nth_error js t = Some (TArray k ef, a) ->
+  match k with
+  | AVector => False
+  | ATupleDyn => nth 0 ps 0 <> 0
+  | ATupleFixed c => c <> 0
+  end ->
+  jsonr fparse js (S f) t ps None = JReject.
+Proof. exact reject_omitted_tuple. Qed.
+Print Assumptions C06_reject_omitted_tuple.
+
+Theorem C06_reject_maybe_ok_false_with_value : forall fparse js f t ps vars tl2 is_enum vns ms x,
+  nth_error js t = Some (TUnion vars, AUnion tl2 is_enum true vns) ->
+  jfind s_ok ms = Some (JBool false) -> jfind s_value ms = Some x ->
+  jsonr fparse js (S f) t ps (Some (JObj ms)) = JReject.
+Proof. exact reject_maybe_ok_false_value. Qed.
+Print Assumptions C06_reject_maybe_ok_false_with_value.
+
+(** types without TL2: a true-typed member given false while its mask bit is set.  Field step, any kind of mask: *)
+Theorem C06_reject_true_false_field : forall js recr rst ps allfds allfis ms sets adds fd fi idx acc,
+  jf_bit fi = true -> jfind (jf_name fi) ms = Some (JBool false) -> nth idx sets false = false ->
+  field_present ps acc fd = true ->
+  jr_field js recr rst false ps allfds allfis ms sets adds fd fi idx acc = JReject.
+Proof. exact reject_true_false_field. Qed.
+Print Assumptions C06_reject_true_false_field.
+
+(** ... whole object, for an outer / constant mask whose bit is set: never accepted *)
+Theorem C06_reject_true_false_outer_mask : forall fparse js f t ps tag fds fis ms k fd fi a bit,
+  nth_error js t = Some (TStruct tag fds, AStruct false false fis) ->
+  nth_error fds k = Some fd -> nth_error fis k = Some fi ->
+  jf_bit fi = true -> jfind (jf_name fi) ms = Some (JBool false) ->
+  f_mask fd = Some (a, bit) -> (forall g, a <> NField g) -> N.testbit (eval_natarg ps [] a) bit = true ->
+  forall r, jsonr fparse js (S f) t ps (Some (JObj ms)) <> JOk r.
+Proof. exact reject_true_false_outer_mask. Qed.
+Print Assumptions C06_reject_true_false_outer_mask.
+
+(** ** the statements are not vacuous: cases.testLocalFieldmask-like struct  f1:# f3:f1.1?true *)
+Definition n_f1 : bytes := [102; 49].
+Definition n_f3 : bytes := [102; 51].
+Definition js_mask : jschema :=
+  [ (TPrim PNat, ANone);
+    (TStruct 1072550713 [], AStruct false false []);
+    (TStruct 7 [mkField 0 true None []; mkField 1 true (Some (NField 0, 1)) []],
+     AStruct false false [mkJF n_f1 false; mkJF n_f3 true]) ].
+Definition no_parse (_ : bool) (_ : bytes) : option N := None.
+
+Example ex_mask_forms :
+  wf_jschema js_mask = true
+  (* {"f1":2,"f3":true} and {"f3":true} (mask bit implied) read alike *)
+  /\ jsonr no_parse js_mask 5 2 [] (Some (JObj [(JStr n_f3, JBool true)]))
+     = jsonr no_parse js_mask 5 2 [] (Some (JObj [(JStr n_f1, JNum [50]); (JStr n_f3, JBool true)]))
+  /\ jsonr no_parse js_mask 5 2 [] (Some (JObj [(JStr n_f3, JBool true)])) = JOk (VStruct [Some (VNum 2); Some (VStruct [])])
+  (* {"f1":2,"f3":false}: explicitly false while the bit is set *)
+  /\ jsonr no_parse js_mask 5 2 [] (Some (JObj [(JStr n_f1, JNum [50]); (JStr n_f3, JBool false)])) = JReject
+  (* {"f1":"2"}: number as string; unknown key; duplicate key *)
+  /\ jsonr no_parse js_mask 5 2 [] (Some (JObj [(JStr n_f1, JStr [50])])) = JOk (VStruct [Some (VNum 2); Some (VStruct [])])
+  /\ jsonr no_parse js_mask 5 2 [] (Some (JObj [(JStr [120], JNum [50])])) = JReject
+  /\ jsonr no_parse js_mask 5 2 [] (Some (JObj [(JStr n_f1, JNum [50]); (JStr n_f1, JNum [50])])) = JReject.
+Proof. repeat split; vm_compute; reflexivity. Qed.
